@@ -409,4 +409,64 @@ theorem exec_inv (db : Db) (op : DbOp) (h : AliasInv db) : AliasInv (db.exec op)
 
 theorem AliasInv_init : AliasInv Db.init := ⟨GraphInv_init, AliasOk.empty _⟩
 
+theorem insertAlias_resolve (al : IMap) (hinv : Inverse al) (i : Int) (a b : Alias) :
+    AMap.get (Db.insertAlias al i a).1.k2v b =
+      if b = a then some i else if AMap.get al.k2v b = some i then none else AMap.get al.k2v b := by
+  have h1 : ∀ a i, AMap.get al.k2v a = some i → AMap.get al.v2k i = some a := fun a i => (hinv a i).mp
+  have h2 : ∀ a i, AMap.get al.v2k i = some a → AMap.get al.k2v a = some i := fun a i => (hinv a i).mpr
+  unfold Db.insertAlias
+  cases hk : al.key i with
+  | none => simp only; rw [IMap.insert_k2v _ hinv]
+  | some old =>
+    simp only
+    rw [IMap.removeKey_twice, IMap.insert_k2v _ (IMap.removeKey_inverse _ hinv old), IMap.removeKey_k2v]
+    simp only [IMap.key] at hk
+    grind
+
+theorem iaLoop_single (db : Db) (q : QId) (a : Alias) :
+    Db.iaLoop true db [(q, a)] db.al [] 0 =
+      match db.dbId q with
+      | none => .inr (Db.errNotFound, [], db.al)
+      | some i => if i < 0 then .inr (Db.errNotAllowed, [], db.al)
+                  else .inl ((Db.insertAlias db.al i a).1, 1) := by
+  simp only [Db.iaLoop, Bool.not_true, Bool.false_and, Bool.false_eq_true, if_false, Bool.true_and]
+  have e : Db.dbId { db with al := db.al } q = db.dbId q := rfl
+  rw [e]
+  cases hq : db.dbId q with
+  | none => rfl
+  | some i =>
+    simp only
+    by_cases hneg : i < 0
+    · simp only [hneg, decide_true, if_true]
+    · simp only [hneg, decide_false, Bool.false_eq_true, if_false]
+
+theorem exec_ia_single (db : Db) (q : QId) (a : Alias) :
+    db.exec (.ia [q] [a]) =
+      if (a.isEmpty || q.isNegLit) = true then (db, Db.errNotAllowed)
+      else match db.dbId q with
+        | none => (db, Db.errNotFound)
+        | some i => if i < 0 then (db, Db.errNotAllowed)
+                    else ({ db with al := (Db.insertAlias db.al i a).1 }, .num 1) := by
+  have tail : (match Db.iaLoop true db [(q, a)] db.al [] 0 with
+      | Sum.inl (al, n) => (({ db with al := al } : Db), Out.num ↑n)
+      | Sum.inr (e, undo, al) => ({ db with al := Db.rollback al undo }, e)) =
+      match db.dbId q with
+        | none => (db, Db.errNotFound)
+        | some i => if i < 0 then (db, Db.errNotAllowed)
+                    else ({ db with al := (Db.insertAlias db.al i a).1 }, .num 1) := by
+    rw [iaLoop_single]
+    cases db.dbId q with
+    | none => rfl
+    | some i =>
+      simp only
+      by_cases hneg : i < 0
+      · simp only [hneg, if_true]; rfl
+      · simp only [hneg, if_false]; rfl
+  simp only [Db.exec, Db.execWith, List.length_cons, List.length_nil, ne_eq, not_true_eq_false, if_false,
+    Bool.true_and, List.any_cons, List.any_nil, Bool.or_false, List.zip_cons_cons, List.zip_nil_right]
+  by_cases hc : (a.isEmpty || q.isNegLit) = true
+  · rw [if_pos hc, if_pos hc]
+  · rw [if_neg hc, if_neg hc]; exact tail
+
+
 end AgdbColl
